@@ -475,7 +475,7 @@ from openaerostruct.structures.wing_weight_loads import StructureWeightLoads  # 
 
 
 def _ssurf(cfg, fam, model="tube", **kw):
-    m = msh(cfg, fam, nx=2)
+    m = msh(cfg, fam, nx=cfg.get("nx", 2))
     return builders.struct_surface("w", m, sym_of(cfg), model, struct_weight_relief=True, **kw)
 
 
@@ -487,6 +487,17 @@ def _cfg_struct(tier, models=("tube",)):
 _cs = lambda tier: _cfg_struct(tier)  # noqa: E731
 
 
+def _cs_mesh(tier, models=("tube",), nymax=99):
+    """components that read the aerodynamic MESH (not just the node line): the chordwise node count is an axis too
+    (nx = 3: an interior row exists; nx = 4: more than one)"""
+    out = [c for c in _cfg_struct(tier, models) if c["ny"] <= nymax]
+    for nx in (3, 4):
+        for side, ny in [("left", 3), ("full", 5), ("right", 3)] if tier == "quick" else [("left", 2), ("left", 4), ("full", 3), ("full", 5), ("right", 3)]:
+            if ny <= nymax:
+                out += [dict(nx=nx, ny=ny, side=side, pf="twdi", model=mo) for mo in models]
+    return out
+
+
 def _nodes(s, kind):
     m = perturbed(msh(s["cfg"], s["fam"], nx=2), s, kind)
     return 0.65 * m[0] + 0.35 * m[-1]
@@ -496,7 +507,7 @@ def _sec(s, kind, ne):
     return {"A": gv((ne,), 1, 1e-2, 2e-2, s, kind), "Iy": gv((ne,), 2, 1e-4, 2e-4, s, kind), "Iz": gv((ne,), 3, 2e-4, 3e-4, s, kind), "J": gv((ne,), 4, 3e-4, 4e-4, s, kind)}
 
 
-Case("ComputeNodes", _cs, lambda s: ComputeNodes(surface=_ssurf(s["cfg"], s["fam"])), lambda s, kind: {"mesh": perturbed(msh(s["cfg"], s["fam"], nx=2), s, kind)}, tags=("side",), kinds=("gen0",))
+Case("ComputeNodes", _cs_mesh, lambda s: ComputeNodes(surface=_ssurf(s["cfg"], s["fam"])), lambda s, kind: {"mesh": perturbed(msh(s["cfg"], s["fam"]), s, kind)}, tags=("side",), kinds=("gen0",))
 Case("Transform", _cs, lambda s: Transform(surface=_ssurf(s["cfg"], s["fam"])), lambda s, kind: {"nodes": _nodes(s, kind)}, tags=("side",), kinds=("gen0", "gen1"))
 Case("Length", _cs, lambda s: Length(surface=_ssurf(s["cfg"], s["fam"])), lambda s, kind: {"nodes": _nodes(s, kind)}, tags=("side",), kinds=("gen0", "gen1"))
 Case("LocalStiff", _cs, lambda s: LocalStiff(surface=_ssurf(s["cfg"], s["fam"])), lambda s, kind: dict(_sec(s, kind, s["cfg"]["ny"] - 1), element_lengths=gv((s["cfg"]["ny"] - 1,), 5, 1.0, 2.0, s, kind)), tags=("side",), kinds=("gen0", "gen1"))
@@ -570,7 +581,7 @@ Case("NonIntersectingThickness", _cs, lambda s: NonIntersectingThickness(surface
 from openaerostruct.geometry.monotonic_constraint import MonotonicConstraint  # noqa: E402
 from openaerostruct.geometry.radius_comp import RadiusComp  # noqa: E402
 
-Case("RadiusComp", _cs, lambda s: RadiusComp(surface=_ssurf(s["cfg"], s["fam"])), lambda s, kind: {"mesh": perturbed(msh(s["cfg"], s["fam"], nx=2), s, kind), "t_over_c": gv((s["cfg"]["ny"] - 1,), 2, 0.08, 0.16, s, kind)}, tags=("side",), kinds=("gen0", "gen1"))
+Case("RadiusComp", _cs_mesh, lambda s: RadiusComp(surface=_ssurf(s["cfg"], s["fam"])), lambda s, kind: {"mesh": perturbed(msh(s["cfg"], s["fam"]), s, kind), "t_over_c": gv((s["cfg"]["ny"] - 1,), 2, 0.08, 0.16, s, kind)}, tags=("side",), kinds=("gen0", "gen1"))
 Case("MonotonicConstraint", _cs, lambda s: MonotonicConstraint(surface=_ssurf(s["cfg"], s["fam"]), var_name="x"), lambda s, kind: {}, tags=("side",), kinds=("gen0",))
 
 # ============================================================ transfer
@@ -732,9 +743,9 @@ def _vmw_pt(s, kind):
 Case("VonMisesWingbox", _cw, lambda s: VonMisesWingbox(surface=_wsurf(s["cfg"], s["fam"])), _vmw_pt, tags=("side",), kinds=("gen0",))
 Case(
     "WingboxGeometry",
-    _cw,
+    lambda tier: _cs_mesh(tier, nymax=3),
     lambda s: WingboxGeometry(surface=_wsurf(s["cfg"], s["fam"])),
-    lambda s, kind: {"mesh": perturbed(msh(s["cfg"], s["fam"], nx=2), s, kind)},
+    lambda s, kind: {"mesh": perturbed(msh(s["cfg"], s["fam"]), s, kind)},
     tags=("side",),
     kinds=("gen0",),
 )
